@@ -101,7 +101,9 @@ pub fn replay(args: &Args, s: &mut Summary) {
                         errs.push(format!("{mode:?} SliderPath::curve differs from Curve::new"));
                     }
                 } else {
-                    // C19: position along the curve
+                    // C19: position along the curve.  The model's predictions presuppose the model's curve; if the
+                    // real curve differs (a C16 matter) only the relations on the REAL curve are checked.
+                    let model_applicable = path_matches(curve.path(), want_path).is_none() && lens_match(curve.lengths(), want_lens).is_none();
                     let dist = curve.dist();
                     let mut last: Option<(f64, Pos)> = None;
                     for (k, e) in geta(&c, "pos").iter().enumerate() {
@@ -109,11 +111,26 @@ pub fn replay(args: &Args, s: &mut Summary) {
                         let progress = pk as f64 / 8.0;
                         let d = curve.progress_to_dist(progress);
                         let want_d = geti(e, "dn") as f64 / 8.0;
-                        if (d - want_d).abs() > 1e-9 * 1f64.max(want_d.abs()) {
+                        if model_applicable && (d - want_d).abs() > 1e-9 * 1f64.max(want_d.abs()) {
                             errs.push(format!("{mode:?} progress_to_dist({progress}) = {d}, expected {want_d}"));
                         }
                         let pos = curve.position_at(progress);
-                        let (wx, wy) = match gets(e, "kind") {
+                        // clamping on the real curve: progress <= 0 is the first point, >= 1 the last (or an equal point)
+                        if !curve.path().is_empty() {
+                            let p0 = curve.path()[0];
+                            let pl = *curve.path().last().unwrap();
+                            if pk <= 0 && pos != p0 {
+                                errs.push(format!("{mode:?} position_at({progress}) = ({}, {}) is not the first point", pos.x, pos.y));
+                            }
+                            if pk >= 8 && ((pos.x - pl.x).abs() as f64 > tol(pl.x as f64) || (pos.y - pl.y).abs() as f64 > tol(pl.y as f64)) {
+                                errs.push(format!("{mode:?} position_at({progress}) = ({}, {}) is not the last point ({}, {})", pos.x, pos.y, pl.x, pl.y));
+                            }
+                            if pos.x.is_nan() || pos.y.is_nan() {
+                                errs.push(format!("{mode:?} position_at({progress}) is NaN"));
+                            }
+                        }
+                        let (wx, wy) = match if model_applicable { gets(e, "kind") } else { "skip" } {
+                            "skip" => (pos.x as f64, pos.y as f64),
                             "origin" => (0.0, 0.0),
                             "vertex" => rat_point(&want_path[geti(e, "i") as usize - 1]),
                             _ => {
@@ -124,7 +141,7 @@ pub fn replay(args: &Args, s: &mut Summary) {
                                 (x0 + (x1 - x0) * w, y0 + (y1 - y0) * w)
                             }
                         };
-                        if (pos.x as f64 - wx).abs() > tol(wx) || (pos.y as f64 - wy).abs() > tol(wy) {
+                        if model_applicable && ((pos.x as f64 - wx).abs() > tol(wx) || (pos.y as f64 - wy).abs() > tol(wy)) {
                             errs.push(format!("{mode:?} position_at({progress}) = ({}, {}), expected ({wx}, {wy})", pos.x, pos.y));
                         }
                         // the composed accessors agree with position_at
